@@ -246,6 +246,15 @@ def run(tier, seed, replay=None):
             except Exception:
                 continue
             stats['mutations'] += 1
+            # equal objects print the same SQL: a changed copy that prints differently must not compare equal to the original
+            try:
+                same, printed, tnow = (c2 == t), str(c2), str(t)
+            except Exception:
+                same, printed, tnow = False, None, None
+            stats['mutations_changing_the_text'] = stats.get('mutations_changing_the_text', 0) + (printed is not None and printed != before[0])
+            if same and printed is not None and printed.split() != tnow.split():
+                fail('equal_trees_print_differently', {'sql': s, 'mutation_of_the_copy': desc, 'original_prints': tnow, 'copy_prints': printed,
+                                                       'copy == original': True})
             if (str(t), t.to_tree()) != before:
                 stats['mutations_visible_in_original'] += 1
                 kind = ('mutation_of_shared_star_part' if re.search(r'\.parts\[\d+\]\.(alias|parentheses)=$', desc)
